@@ -75,6 +75,17 @@ def check_c02(case, stats):
   if (np.abs(T - Tref) > bound_pts).any():
     raise Violation('C02/transform-is-XLt/' + name, 'max dev %g' % np.abs(T - Tref).max())
   metric = call('C02/get_metric', est.get_metric)
+  if k < d and np.linalg.matrix_rank(L) < d:
+    # rank-deficient transform: add a pair whose difference lies in the null space of L (true distance 0)
+    _, _, Vt = np.linalg.svd(L)
+    n_orig = len(idx)
+    pool = np.vstack([pool, pool[0] + (1.0 + np.abs(pool[0]).max()) * Vt[-1]])
+    idx = np.vstack([idx, [0, len(pool) - 1], [len(pool) - 1, 0]])
+    T = np.asarray(call('C02/transform/' + name, est.transform, pool))
+    bound_pts = 64 * EPS * smax * rt * safe_norm(pool, axis=1, keepdims=True) + 1e-150
+    stats.classes['nullspace-pair'] += 1
+  else:
+    n_orig = len(idx)
   formed = pool[idx]                       # (m, 2, d)
   pd = np.asarray(call('C02/pair_distance/' + name, est.pair_distance, formed))
   with recorded_warnings() as w:
@@ -86,19 +97,22 @@ def check_c02(case, stats):
   # representation variants
   variants = {'list': formed.tolist(), 'fortran': np.asfortranarray(formed),
               'noncontig': np.concatenate([formed, formed], axis=2)[:, :, :d] if d else formed,
-              'indices': idx}
+              'indices': idx[:n_orig]}
   big = np.zeros((len(idx), 2, 2 * d))
   big[:, :, ::2] = formed
   variants['strided'] = big[:, :, ::2]
   if case['integral'] and (case['dtype'] != 'int16' or np.abs(formed).max() < 32000):
-    variants[case['dtype']] = formed.astype(case['dtype'])
+    variants[case['dtype']] = formed[:n_orig].astype(case['dtype'])     # the appended null-space point is not integral
   for vn, arr in variants.items():
     out = np.asarray(call('C02/pair_distance[%s]/%s' % (vn, name), est.pair_distance, arr))
     bnd = 8 * EPS * smax * rt * safe_norm(formed[:, 0] - formed[:, 1], axis=1) + 1e-150
-    if out.shape != pd.shape or (np.abs(out - pd) > bnd).any():
+    if vn == 'indices' or vn == case['dtype']:
+      if out.shape != pd[:n_orig].shape or (np.abs(out - pd[:n_orig]) > bnd[:n_orig]).any():
+        raise Violation('C02/representation/%s/%s' % (vn, name), 'pair_distance %s vs %s' % (out, pd[:n_orig]))
+    elif out.shape != pd.shape or (np.abs(out - pd) > bnd).any():
       raise Violation('C02/representation/%s/%s' % (vn, name), 'pair_distance %s vs %s' % (out, pd))
     stats.classes['repr:' + vn] += 1
-  tvars = {'list': pool.tolist(), 'fortran': np.asfortranarray(pool), 'indices': np.arange(len(pool))}
+  tvars = {'list': pool.tolist(), 'fortran': np.asfortranarray(pool)}
   for vn, arr in tvars.items():
     out = np.asarray(call('C02/transform[%s]/%s' % (vn, name), est.transform, arr))
     if out.shape != T.shape or (np.abs(out - T) > bound_pts).any():
